@@ -4,7 +4,8 @@
     pred - Q(low rank)  of the same draw matrix along the draw axis, where low rank = floor(((1-alpha)/2)(B+1))/B and
     high rank = ceil((1-(1-alpha)/2)(B-1))/B  (the statement's own formulas); with low <= high this gives lower <= upper;
  R2 straddle: aggregate bounds pass  minimum(lower, pred - eps) / maximum(upper, pred + eps)  with a literal eps > 0 around the
-    same prediction the quantiles were subtracted from;
+    same prediction the quantiles were subtracted from; that prediction is the stored (reported) one at the top level and below
+    it a recomputed quotient whose R | N | U components are those of the reported prediction (R2.centre);
  R3 clipping: every factor of errors_B_1..4, weighted_yz_test_pred and weighted_z_test_pred is clipped to the bounds that
     _generate_nonreporting_bounds gives for the matching quantity (margin with margin bounds, turnout factor with turnout
     bounds) after the last unbounded update, then multiplied by the baseline weights; default naive bounds are +-1 and >= 0;
@@ -70,6 +71,47 @@ def _bound_parts(t):
     return x[2], qc[2][0], q[1], kw.get("axis"), t[2][1]
 
 
+def _centre(ctx, cls):
+    """R2.centre: 'lower < prediction < upper' needs the value the interval is built around to be the prediction that is
+    REPORTED.  At the top level it is the stored self.aggregate_pred_margin; below it, it is recomputed, and must be the same
+    quotient: numerator = margin votes of unexpected + reporting units + predicted margin votes of nonreporting units,
+    denominator likewise for two-party votes, as sums of indicator products over the R | N | U row segments."""
+    from .. import aggmodel as am
+    from .c01 import model_builder
+    mb = model_builder(ctx)
+    af = ctx.fn(BM, "BootstrapElectionModel.get_aggregate_prediction_intervals")
+    s = mb.summarize(af, {"estimand": ("const", "margin")}, self_cls=cls)
+    ret = s.ret()
+    centres = []
+    for t in ir.walk(ret):
+        if t[0] == "phi" and t[1][0] == "call" and t[1][1] == ("attr", SELF, "_is_top_level_aggregate") and t not in centres \
+                and t[2] == ("attr", SELF, "aggregate_pred_margin"):
+            centres.append(t)
+    ok_top = len(centres) == 1
+    ctx.ob("C06.R2.centre", f"{af.qualname}|top level: interval built around the stored prediction", ok_top, af.where(),
+           "at the top level the interval is built around self.aggregate_pred_margin (the reported, race-call adjusted prediction)" if ok_top
+           else f"{len(centres)} candidates for 'top level ? stored prediction : recomputed prediction'")
+    if not ok_top:
+        return
+    x = centres[0][3]
+    while x[0] == "call" and (ir.show(x[1]).endswith("reshape") or ir.show(x[1]).endswith("nan_to_num")):
+        x = x[1][1] if x[1][0] == "attr" else x[2][0]
+    want = {"numerator": [("N", "self.weighted_yz_test_pred"), ("R", "baseline_weights*results_normalized_margin*turnout_factor"), ("U", "results_margin")],
+            "denominator": [("N", "self.weighted_z_test_pred"), ("R", "baseline_weights*turnout_factor"), ("U", "results_weights")]}
+    if not (x[0] == "bin" and x[1] == "/"):
+        ctx.ob("C06.R2.centre", f"{af.qualname}|below the top level: recomputed prediction is a quotient", False, af.where(),
+               f"recomputed prediction is {ir.show(x, maxdepth=3)}")
+        return
+    for what, side in (("numerator", x[2]), ("denominator", x[3])):
+        comps = am.matsum_components(am.non_classification_view(side))
+        got = sorted((c[0], c[1]) for c in comps)
+        ok = got == want[what] and all(c[2] for c in comps)
+        ctx.ob("C06.R2.centre", f"{af.qualname}|below the top level: {what} of the recomputed prediction", ok, af.where(),
+               f"{what} = " + " + ".join(f"{seg}:{v}" for seg, v in got) + " (the reported prediction's own terms)" if ok
+               else f"{what} of the value the interval is centred on is {got}, but the reported prediction uses {want[what]}: "
+                    f"the interval is built around a different number than the one reported")
+
+
 def check(ctx):
     repo = ctx.repo
     ctx.explanation = (
@@ -122,6 +164,8 @@ def check(ctx):
         okE = E[0] == "bin" and E[1] == "-" and pu[1] == E
         ctx.ob("C06.R1.same-matrix", f"{af.qualname}|aggregate bounds from one draw matrix", okE, af.where(),
                "lower and upper are quantiles of the same matrix of bootstrap differences" if okE else "lower and upper use different draw matrices")
+
+    _centre(ctx, cls)
 
     # ---- quantile formulas as written in _get_quantiles --------------------------------------------------
     qf = ctx.fn(BM, "BootstrapElectionModel._get_quantiles")
